@@ -57,14 +57,14 @@ theorem writeSboms_state (pre : Fmt → Pre) (l : List (Fmt × D)) (st : Fmt →
           simp [hfg, hgf]
 
 theorem canWrite_eq (p : Pre) : canWrite p = !blocked p := by cases p <;> rfl
-theorem canWrite_store (s : StorePre) : blocked (storeAsPre s) = (s == .dir) := by cases s <;> rfl
+theorem canWrite_store (s : StorePre) : blocked (storeAsPre s) = storeBlocked s := by cases s <;> rfl
 
 theorem buildWrites_blocked (i : Invocation P L S D) (e : Eff P L S D) (r : BuildOk L S D)
     (h : writeBlocked i r = true) : ∃ k, (buildWrites i e r).2 = .error k ∧ (buildWrites i e r).1.detectRan = e.detectRan ∧ (buildWrites i e r).1.buildRan = e.buildRan := by
   unfold buildWrites
   simp only [writeSboms_ok, canWrite_eq, canWrite_store]
   unfold writeBlocked at h
-  cases hl : r.launch <;> cases hs : r.store <;> cases hlp : blocked i.launchPre <;> cases hsp : (i.storePre == StorePre.dir) <;>
+  cases hl : r.launch <;> cases hs : r.store <;> cases hlp : blocked i.launchPre <;> cases hsp : storeBlocked i.storePre <;>
     cases hb : r.bsboms.any (fun x => blocked (i.bPre x.1)) <;> cases hlb : r.lsboms.any (fun x => blocked (i.lPre x.1)) <;>
     simp [hl, hs, hlp, hsp, hb, hlb] at h ⊢
 
@@ -83,7 +83,7 @@ theorem buildWrites_free (i : Invocation P L S D) (e : Eff P L S D) (r : BuildOk
     rw [writeSboms_ok]; unfold writeBlocked at h; simp at h ⊢; intro a b hab; exact (h.2 a b hab)
   unfold buildWrites
   unfold writeBlocked at h
-  cases hl : r.launch <;> cases hs : r.store <;> cases hlp : blocked i.launchPre <;> cases hsp : (i.storePre == StorePre.dir) <;>
+  cases hl : r.launch <;> cases hs : r.store <;> cases hlp : blocked i.launchPre <;> cases hsp : storeBlocked i.storePre <;>
     simp [hl, hs, hlp, hsp] at h <;>
     simp [canWrite_eq, canWrite_store, hlp, hsp, hb', hl', expected, hel, hes, writeSboms_state _ _ _ hb', writeSboms_state _ _ _ hl', heb, hell] <;>
     (constructor <;> intro f <;> cases providedSbom f _ <;> rfl)
